@@ -1,5 +1,16 @@
 CHECKS = [
     {
+        "property_id": "C01",
+        "level": "model_checking",
+        "design_ref": "DESIGN.md 4/C01",
+        "technique": "bounded-exhaustive enumeration of operator trees x divisors against an independent reference, plus explicit-state search over query histories (memoisation)",
+        "text": "Every (divisor, residue set, count) of the lemma space, every operator tree of the depth bound x every divisor of the tier, "
+        "and every permutation of the query set on fresh objects is executed on the real BitLengthSet and compared with ref.bls "
+        "(explicit sets and binary-exponentiation residues, cross-checked with each other). This is the space in which the "
+        "k -> min(k, d + k mod d) reduction and the lcm step of padding can be wrong.",
+        "note": "trusted: ref/bls.py; bounded by depth, leaf alphabet, divisor range of the tier",
+    },
+    {
         "property_id": "C03",
         "level": "model_checking",
         "design_ref": "DESIGN.md 4/C03",
